@@ -184,19 +184,21 @@ def main(tier, seed):
             # a rewrite on the live object (another point is inserted and removed again), then a read through the same handle
             extra = rpoint(rng, reserved_ok=False)
             extra["tags"], extra["meas"] = {"zz_extra": "1"}, "zz_extra"
-            db.insert(M.real_point(tf, extra))
-            db.remove(tf.MeasurementQuery() == "zz_extra")
             try:
+                db.insert(M.real_point(tf, extra))
+                db.remove(tf.MeasurementQuery() == "zz_extra")
                 got_live = [M.canon_point(q) for q in db.all(sorted=False)]
             except Exception as e:  # noqa
                 got_live = ("raise", type(e).__name__)
         db.close()
-        db2 = tf.TinyFlux(path, **kw)
         try:
-            got = [M.canon_point(q) for q in db2.all(sorted=False)]
+            db2 = tf.TinyFlux(path, **kw)
+            try:
+                got = [M.canon_point(q) for q in db2.all(sorted=False)]
+            finally:
+                db2.close()
         except Exception as e:  # noqa
             got = ("raise", type(e).__name__)
-        db2.close()
         file_runs += 1
         same = lambda g: not isinstance(g, tuple) and len(g) == len(pts) and all(py_equal(a, x) for a, x in zip(pts, g))
         ok = same(got) and (got_live is None or same(got_live))
